@@ -352,8 +352,10 @@ def kind_churn_scripts(seed, per_kind, n_ops, tid0, kinds=None, far=False):
                 elif x < 0.97:
                     ops.append({"o": "wop", "k": rng.choice(["slice", "slice", "slicemut", "join", "count", "restrict", "entries", "joinent"]), "s": 0,
                                 "v": rng.choice(["read", "mut_join", "mut_lend", "lend", "join"]), "sel": rng.randrange(1 << 16), "wsel": rng.randrange(1 << 16)})
-                else:
+                elif x < 0.985:
                     ops.append({"o": "wop", "k": "setemit", "s": 0, "b": rng.random() < 0.6})
+                elif j % 4 == 1:
+                    ops.append({"o": "oob_insert", "s": 0})
             res.append({"tid": tid, "cfg": {"kinds": [kind], "reg": [REGS[j % len(REGS)]]}, "ops": ops, "sweep": "full"})
             tid += 1
     return res
